@@ -124,4 +124,90 @@ theorem read_waits (cfg : Cfg) (tbl : List Nat) (ops : List Op) (a : Nat) (f0 : 
     ⟨hw.1, Nat.le_refl _, fun _ => hw0⟩ hw.2
   exact h.1.2.2 hclean
 
+/-- no read of the sequence appends a StartTransfer of `a` (nor a removal / trigger of `a`) -/
+def CleanSeq (a N : Nat) : State → List (List (Nat × Nat)) → Prop
+  | _, [] => True
+  | s, tk :: r =>
+    ((read s N tk).1.log.take ((read s N tk).1.log.length - s.log.length)).any (badEv2 a) = false ∧
+    CleanSeq a N (read s N tk).1 r
+
+/-- the hypotheses on the state the polling starts from: nothing is paced, `a` waits and may transfer at `N` -/
+structure WaitsEligible (s0 : State) (a N : Nat) (f0 : FileDesc) : Prop where
+  waits : Waits a f0 s0
+  elig : f0.maxCount > f0.info.count ∨ gapElapsed f0 N = true
+  pub : s0.cfg.mode = .full → f0.published = true
+  start : ∀ st, f0.info.startTime = some st → st ≤ N
+  all : ∀ k g, getF s0.objs k = some g → wantsTick g = false
+
+theorem busy_while_waiting (cfg : Cfg) (tbl : List Nat) (hsorted : (cfg.queues.map (fun x => x.1)).Pairwise (fun a b => a < b))
+    (s0 : State) (a N : Nat) (f0 : FileDesc) (he : WaitsEligible s0 a N f0)
+    (hprio : f0.prio ∈ cfg.queues.map (fun x => x.1)) :
+    ∀ (tks : List (List (Nat × Nat))) (ops : List Op), Mono s0 (run (init cfg tbl) ops) →
+    Waits a f0 (run (init cfg tbl) ops) → CleanSeq a N (run (init cfg tbl) ops) tks →
+    busyReads N (run (init cfg tbl) ops) tks = tks.length := by
+  intro tks
+  induction tks with
+  | nil => intro _ _ _ _; rfl
+  | cons tk rest ih =>
+    intro ops hm hw hclean
+    obtain ⟨hc1, hc2⟩ := hclean
+    have hwq := run_inv Wf.closed Wf.closedOps ops (init cfg tbl) (by rw [heldOf_init]; exact Wf.init cfg tbl) rfl
+    have hsh := run_shape cfg tbl ops
+    have hstale := stale_run cfg tbl ops
+    have hw' := read_waits cfg tbl ops a f0 N tk hw hc1
+    have hm' : Mono s0 (run (init cfg tbl) (ops ++ [.read N tk])) := by
+      rw [run_snoc_read]; exact hm.trans (mono_read _ N tk hwq.2)
+    have hrest := ih (ops ++ [.read N tk]) hm' (by rw [run_snoc_read]; exact hw') (by rw [run_snoc_read]; exact hc2)
+    rw [run_snoc_read] at hrest
+    -- this read returns something
+    have hne : (read (run (init cfg tbl) ops) N tk).2 ≠ Out.none := by
+      intro hout
+      obtain ⟨hq, f, hf, v⟩ := hw
+      have hgate : ∀ k g, getF (run (init cfg tbl) ops).objs k = some g → gateBlocked g N = false := by
+        intro k g hg
+        obtain ⟨g0, hg0, dg⟩ := hm.bwd k g hg
+        have hw0 : wantsTick g = false := by
+          have := he.all k g0 hg0
+          unfold wantsTick at this ⊢
+          rw [dg.target, dg.nSym]; exact this
+        unfold gateBlocked
+        rw [hstale g (getF_mem hg) hw0]
+      obtain ⟨pm, hpm, hp1⟩ := List.mem_map.mp hprio
+      have : (pm.1, slotsOf pm.2) ∈ shape (run (init cfg tbl) ops).sessions := by
+        rw [hsh]; exact List.mem_map.mpr ⟨pm, hpm, rfl⟩
+      unfold shape at this
+      obtain ⟨q, hq1, hq2⟩ := List.mem_map.mp this
+      simp only [Prod.mk.injEq] at hq2
+      have hlen : 0 < q.slots.length := by rw [hq2.2]; unfold slotsOf; split <;> omega
+      have helig : f.maxCount > f.info.count ∨ gapElapsed f N = true := by
+        rcases he.elig with h1 | h1
+        · left; rw [v.maxCount, v.info]; exact h1
+        · right
+          unfold gapElapsed at h1 ⊢
+          rw [v.carousel, v.info]; exact h1
+      obtain ⟨c, g, _, hg, hb⟩ := idle_waiting cfg tbl ops N tk hsorted hout a f hq hf helig
+        (fun hmode => v.pub (he.pub (by rw [← hm.cfg]; exact hmode)))
+        (fun st hst => he.start st (by rw [← v.info]; exact hst))
+        q hq1 (by rw [hq2.1, hp1, v.prio]) 0 q.slots[0] (by simp [hlen])
+      rw [hgate c.key g hg] at hb; cases hb
+    show (match (read (run (init cfg tbl) ops) N tk).2 with | .none => 0 | _ => 1) +
+      busyReads N (read (run (init cfg tbl) ops) N tk).1 rest = rest.length + 1
+    rw [hrest]
+    cases hout : (read (run (init cfg tbl) ops) N tk).2 with
+    | none => exact absurd hout hne
+    | hang => simp only []; omega
+    | pkt _ _ _ _ => simp only []; omega
+    | fdt _ _ _ => simp only []; omega
+
+/-- polling one instant at which a waiting object may transfer: within `mu + 1` calls one of them starts it -/
+theorem starts_within (cfg : Cfg) (tbl : List Nat) (hdur : 0 < cfg.fdtDuration)
+    (hsorted : (cfg.queues.map (fun x => x.1)).Pairwise (fun a b => a < b)) (ops : List Op) (a N : Nat) (f0 : FileDesc)
+    (he : WaitsEligible (run (init cfg tbl) ops) a N f0) (hprio : f0.prio ∈ cfg.queues.map (fun x => x.1))
+    (tks : List (List (Nat × Nat))) (hlen : mu N tbl (run (init cfg tbl) ops) + 1 ≤ tks.length) :
+    ¬ CleanSeq a N (run (init cfg tbl) ops) tks := by
+  intro hclean
+  have h1 := busy_while_waiting cfg tbl hsorted _ a N f0 he hprio tks ops (Mono.refl _) he.waits hclean
+  have h2 := busy_reads_bounded cfg tbl hdur ops N tks
+  omega
+
 end Flute.Sched
